@@ -189,8 +189,23 @@ theorem search_sound (q : Bool) : ∀ (fuel : Nat) (m : Memo K) (s : σ) (pend :
             · rename_i heq
               have : o = out := by simpa using heq
               subst this
-              obtain ⟨hlin, hq⟩ := ih _ _ _ _ _ _ _ (hn.erase _) h
-              exact ⟨Lin.ret hp ho hlin, hq⟩
+              split at h
+              · rename_i r m1 hr
+                cases h
+                obtain ⟨hlin, hq⟩ := ih _ _ _ _ _ _ _ (hn.erase _) hr
+                exact ⟨Lin.ret hp ho hlin, hq⟩
+              · split at h
+                · cases h
+                · split at h
+                  · rename_i r m1 hf
+                    cases h
+                    obtain ⟨c, hc, m0, m1', hs⟩ := firstSomeM_some hf
+                    obtain ⟨pu, hpu, hmic⟩ := mem_candidates sem hc
+                    split at hs
+                    · obtain ⟨hl, hq⟩ := ih _ _ _ _ _ _ _ (hn.setP _ _) hs
+                      exact ⟨Lin.step (lookup_of_mem hn hpu) hmic hl, hq⟩
+                    · cases hs
+                  · cases h
             · cases h
           · split at h
             · cases h
